@@ -34,9 +34,9 @@ TABLE = [
     ('api.ParquetFile.__getstate__', 'self', r'\.fmd\.row_groups$', 'MEMO', 'normalises None to [] (idempotent)'),
     ('api.ParquetFile.__setstate__', 'self', r'\.__dict__$', 'CONSTRUCT', 'fills the new object'),
     ('api.ParquetFile.__setstate__', 'self', r'\[1\]$', 'MEMO', 'decodes file_path bytes->str in place (idempotent)'),
-    ('api.ParquetFile._dtypes', 'self', r'\.(dtypes|_base_dtype|tz)$', 'MEMO', 'derived from immutable metadata; same keys for every caller'),
+    ('api.ParquetFile._dtypes', 'self', r'\.(_base_dtype|tz)$', 'MEMO', 'derived from immutable metadata only (no call argument flows in)'),
     ('api.ParquetFile._read_partitions', 'self', r'\.(file_scheme|cats)$', 'CONSTRUCT', 'runs in _set_attrs of a handle being built'),
-    ('api.ParquetFile._set_attrs', 'self', r'\.(selfmade|schema|created_by|row_groups|_schema|version)$', 'CONSTRUCT', 'handle being built'),
+    ('api.ParquetFile._set_attrs', 'self', r'\.(selfmade|schema|created_by|row_groups|_schema|version|dtypes)$', 'CONSTRUCT', 'handle being built'),
     ('api.ParquetFile.categories', 'self', r'\.(_categories|_columns_dtype)$', 'MEMO', 'idempotent'),
     ('api.ParquetFile.key_value_metadata', 'self', r'\._kvm$', 'MEMO', 'idempotent'),
     ('api.ParquetFile.pandas_metadata', 'self', r'\._pdm$', 'MEMO', 'idempotent'),
@@ -73,6 +73,7 @@ def run(ctx):
     r202(ctx)
     r203(ctx)
     r206(ctx)
+    r208(ctx)
     from . import c06 as _c06, meta_rules as _mr
     _c06.r64(ctx, ctx.repo['api'])
     _c06.r65(ctx, ctx.repo['api'])
@@ -385,3 +386,22 @@ def r206(ctx):
     for attr, sites in sorted(calldep.items()):
         ctx.ob('R20.6', 'api:call-dependent-attribute-%s-is-write-only-on-the-read-path' % attr, True,
                'stored in %s' % sorted({a for a, _ in sites}), api.loc(sites[0][1]))
+
+
+def r208(ctx, rule='R20.8'):
+    """copy.copy(handle) and pickling go through __getstate__: the state handed to the new handle carries a private
+    metadata object with copied schema elements (handle construction rebuilds the schema tree in place on them)"""
+    api = ctx.repo['api']
+    f = api.func('ParquetFile.__getstate__')
+    ret = [s for s in f.body if isinstance(s, ast.Return) and isinstance(s.value, ast.Dict)]
+    ok = False
+    d = 'no dict returned'
+    if ret:
+        kv = {norm(k): norm(v) for k, v in zip(ret[0].value.keys, ret[0].value.values)}
+        v = kv.get("'fmd'")
+        d = "'fmd': %s" % v
+        if v and v != 'self.fmd':
+            asg = [s for s in f.body if isinstance(s, ast.Assign) and norm(s.targets[0]) == v]
+            sch = [s for s in f.body if isinstance(s, ast.Assign) and norm(s.targets[0]) == v + '.schema']
+            ok = any('copy' in norm(a.value) and 'self.fmd' in norm(a.value) for a in asg) and any(_copies_all(s.value, v) for s in sch)
+    ctx.ob(rule, 'api.__getstate__:new-handle-gets-private-metadata-with-copied-schema-elements', ok, d, api.loc(f))
